@@ -87,3 +87,11 @@ def check(ctx):
     ctx.must_call(SI, Call(r"generator::gen_impl::GeneratorObj::set_local_data|generator::gen_impl::GeneratorImpl::set_local_data", transitive=False), "fresh-local-attached",
                   "the fresh CoroutineLocal is attached to the (possibly recycled) stack")
     shared.condvar_relock_keeps_guard(ctx)
+    shared.forwarding_rules(ctx, [("may::join::Join::set_panic_data", AO + "store", "fwd/join-set-panic-data", "the panic payload handed to the Join is stored for the joiner")])
+    # a pooled stack has the default size: spawn takes one from the pool only for a default-size request, any other size gets its own stack
+    same_size = lambda a: a.kind == "cmp" and a.op == "Eq" and any(is_call_result(r"may::config::Config::get_stack_size")(x) for x in (a.a, a.b))
+    other_size = lambda a: a.kind == "cmp" and a.op == "Ne" and any(is_call_result(r"may::config::Config::get_stack_size")(x) for x in (a.a, a.b))
+    ctx.guarded(SI, Call(r"may::pool::CoroutinePool::get", transitive=False), same_size, "pooled-stack-only-for-default-size", "spawn_impl takes a pooled stack only when the requested size is the default size",
+                pred_label="edge `stack_size == config().get_stack_size()`")
+    ctx.guarded(SI, Call(r"generator::.*::new_opt", transitive=False), other_size, "own-stack-for-other-sizes", "a coroutine with another stack size gets a stack of exactly that size",
+                pred_label="edge `stack_size == config().get_stack_size()` is false")
